@@ -267,6 +267,14 @@ class Exporter:
                 items = self.collect_items(e)
                 if items is not None:
                     return ("inline", items)
+            if e[2].nsyn == "std::ops::Index::index" and any("RangeFull" in str(a) for a in (e[2].syn_args or [])):
+                return self.content(e[3][0], depth + 1)        # `bytes[..]`
+            if n.endswith("<impl [V]>::concat") or n.endswith("<impl [T]>::concat"):
+                return self.content(e[3][0], depth + 1)        # `[a, b, c].concat()`
+            if e[2].nsyn.startswith("std::iter::Iterator::") or n in ("std::iter::once",):
+                items = self.iter_items(e)
+                if items is not None:
+                    return ("inline", items)
             if e[2].local:
                 return ("enc", self.path_of(e[3][0]) if e[3] else "?", e[2].path)
             return ("unknown", "call %s" % n)
@@ -288,7 +296,16 @@ class Exporter:
                 return subs[0]
             return ("unknown", "value depends on the path taken: %s" % [c[:2] for c in subs][:4])
         if k == "array":
-            return ("seq", [self.content(x, depth + 1) for x in e[1]])
+            out = []
+            for x in e[1]:
+                c = self.content(x, depth + 1)
+                x0 = x
+                while x0[0] == "cast":
+                    x0 = x0[2]
+                if c[0] == "bytes" and x0[0] != "ref":
+                    c = ("atom", c[1], 1, "push", c[2])       # a by-value element of a `[u8; N]` literal is one byte
+                out.append(c)
+            return ("seq", out)
         if k == "const":
             return ("constbyte", e[1])
         return ("unknown", canon(e)[:120])
@@ -384,25 +401,57 @@ class Exporter:
         return sub
 
     def collect_items(self, call):
-        """collect(flat_map / map(iter(X), closure)) -> per-element emissions of the closure's returned buffer."""
-        chain = peel(call[3][0], identity=()) if call[3] else ("opaque",)
-        if not (chain[0] == "call" and chain[2] is not None and chain[2].nsyn in ("std::iter::Iterator::flat_map", "std::iter::Iterator::map") and len(chain[3]) == 2):
+        """collect(<iterator chain>) -> the chain's items."""
+        return self.iter_items(call[3][0]) if call[3] else None
+
+    def _content_items(self, c):
+        if c[0] == "unknown":
+            return None
+        return self.flat([{"loop": (), "cond": (), "content": c}])
+
+    def iter_items(self, it, depth=0):
+        """Items emitted, in order, by an iterator expression that yields bytes / byte buffers: flat_map / map over a
+        collection (closure or named crate function per element), once(x), chain(a, b), flatten(a), into_iter(buffer)."""
+        chain = peel(it, identity=())
+        if depth > 8 or not (chain[0] == "call" and chain[2] is not None):
+            return None
+        n = chain[2].nsyn
+        a = chain[3]
+        if n == "std::iter::Iterator::chain" and len(a) == 2:
+            x, y = self.iter_items(a[0], depth + 1), self.iter_items(a[1], depth + 1)
+            return None if x is None or y is None else x + y
+        if n in ("std::iter::Iterator::flatten", "std::iter::Iterator::copied", "std::iter::Iterator::cloned") and a:
+            return self.iter_items(a[0], depth + 1)
+        if chain[2].npath == "std::iter::once" and a:
+            return self._content_items(self.content(a[0]))
+        if n == "std::iter::IntoIterator::into_iter" and a:
+            inner = peel(a[0], identity=())
+            if inner[0] == "call" and inner[2] is not None and (inner[2].nsyn.startswith("std::iter::Iterator::") or inner[2].npath == "std::iter::once"):
+                return self.iter_items(inner, depth + 1)
+            return self._content_items(self.content(a[0]))
+        if not (n in ("std::iter::Iterator::flat_map", "std::iter::Iterator::map") and len(a) == 2):
             return None
         srcpath = self.path_of(chain[3][0], iterating=True)
         clo = peel(chain[3][1], identity=(), casts=False)
-        if clo[0] != "closure":
+        if clo[0] == "closure":
+            env = [self.path_of(u) for u in clo[2]]
+            sub = self._sub_exporter(clo[1], [env, None])
+            if sub is None:
+                return None
+            sub.argpaths[2] = srcpath
+        elif clo[0] == "constfn" and clo[1].local:
+            sub = self._sub_exporter(clo[1].path, [None])
+            if sub is None:
+                return None
+            sub.argpaths[1] = srcpath
+        else:
             return None
-        env = [self.path_of(u) for u in clo[2]]
-        sub = self._sub_exporter(clo[1], [env, None])
-        if sub is None:
-            return None
-        sub.argpaths[2] = srcpath
         ow = self.loop_source_owner(chain[3][0])
-        rl = sub.result_local()
-        if rl is None:
+        items = sub.flat()
+        if items is None:
             return None
-        items = self._inline_items(sub, rl)
         self._loop_owner = getattr(self, "_loop_owner", {})
+        self._loop_owner.update(getattr(sub, "_loop_owner", {}))
         self._loop_owner[srcpath] = ow
         return [((srcpath,) + tuple(lp), cd, cc) for (lp, cd, cc) in items]
 
@@ -432,6 +481,11 @@ class Exporter:
                 if c.npath in ("std::vec::Vec::new", "std::vec::Vec::with_capacity") or c.nsyn in ("std::default::Default::default",):
                     continue
                 if c.local and self._fresh_ctor(c):
+                    continue
+                if c.local and c.path in self.prog.bodies and self.prog.bodies[c.path].local_ty(0) == "std::vec::Vec<u8>":
+                    # `let mut bytes = self.header.be_bytes();` — the helper's output is the buffer's first content
+                    cont = self.content(self.an.simp(self.sl.call_expr(d[1], t)))
+                    evs.append({"pos": self.order.get(d[1], 0), "block": d[1], "loop": self.loopctx(d[1]), "cond": self.condctx(d[1]), "content": cont})
                     continue
                 if c.npath in ("std::slice::<impl [T]>::to_vec",):
                     cont = self.content(self.an.op(b, t["args"][0]))
@@ -542,8 +596,17 @@ class Exporter:
         if evs is None:
             rl = self.result_local()
             if rl is None:
-                return None
-            evs = self.events(rl)
+                # the result is an expression (`[..].concat()`, `iter.collect()`), not a buffer that is filled
+                ret = self.sl.local(0)
+                x = peel(ret, mutlocal=False)
+                if x[0] == "agg" and x[2] == "Ok":
+                    ret = x[3][0]
+                c = self.content(self.an.simp(ret))
+                if c[0] == "unknown":
+                    return None
+                evs = [{"loop": (), "cond": (), "content": c}]
+            else:
+                evs = self.events(rl)
         out = []
         for ev in evs:
             c = ev["content"]
@@ -559,8 +622,25 @@ class Exporter:
                 for (l2, c2, cc) in c[1]:
                     out.append((lp + tuple(l2), tuple(dict.fromkeys(cd + tuple(c2))), cc))
             elif c[0] == "seq":
-                for x in c[1]:
-                    out.append((lp, cd, x))
+                out += self.flat([{"loop": lp, "cond": cd, "content": x} for x in c[1]])
             else:
                 out.append((lp, cd, c))
         return out
+
+
+def expand_enc(prog, an, items, depth=0):
+    """Replace ("enc", path, fn) items — the output of a crate helper that encodes the value at `path` — by the
+    helper's own emissions, rooted at that path (private `fn be_bytes(&self) -> Vec<u8>` helpers of an exporter)."""
+    if items is None or depth > 3:
+        return items
+    out = []
+    for (lp, cd, c) in items:
+        if c[0] == "enc" and c[2] in prog.bodies:
+            sub = Exporter(prog, an, prog.bodies[c[2]], {1: c[1]}, depth + 1)
+            si = expand_enc(prog, an, sub.flat(), depth + 1)
+            if si is not None:
+                for (l2, c2, cc) in si:
+                    out.append((tuple(lp) + tuple(l2), tuple(dict.fromkeys(tuple(cd) + tuple(c2))), cc))
+                continue
+        out.append((lp, cd, c))
+    return out
